@@ -322,6 +322,13 @@ pub fn c03(cx: &Cx) -> i32 {
     crate::misc::wcb_rule(cx, &mut rep);
     crate::misc::mentions_param_rule(cx, &mut rep);
     crate::props_hyg::where_rules(cx, &mut rep);
+    // "comparison-ignored fields contribute no bound": the push is judged against the code the generator emits for a field,
+    // so which fields are ignored must itself be the documented decision (the DM-ignore tables of all five comparison traits)
+    {
+        let traits: Vec<usize> = (0..5).collect();
+        let ct = crate::props::cmp_models(cx, &mut rep, &traits, "", false);
+        for t in 0..5 { crate::props::table_vs_reference(cx, &mut rep, &ct, t, "", Some(&["DM-ignore"])); }
+    }
     rep.assumptions = vec![
         "analysed under the property's own hypothesis `no bound(...) given`: every explicit level continues (the interplay with explicit levels is C04)".into(),
         "field types written through macros are invisible to the parameter-mention visitor (not claimed)".into(),
